@@ -197,8 +197,13 @@ def unescape(s):
 
 
 class Ref:
-    def __init__(self, faults=None):
+    def __init__(self, faults=None, value_refs=None):
         self.faults = faults or {}
+        # value_refs: {key: {keys referenced by templated values of key in the alphabet}}
+        self.value_refs = value_refs or {}
+        self.body_events = []  # (dataset name, frozen projection of the effective options it saw)
+        self.effect_events = []  # (effect name, normalised value)
+        self._mention_cache = {}
         self.log = []
         self.reads = set()
         self.read_log = []  # ordered (key, present)
@@ -213,6 +218,8 @@ class Ref:
         self.reads = set()
         self.read_log = []
         self.abandoned_reads = set()
+        self.body_events = []
+        self.effect_events = []
         self._trial = 0
         self._trial_marks = []
         try:
@@ -518,6 +525,7 @@ class Ref:
         v = self.ev(t[1], o)
         if not self._effects_disabled(o):
             for e in t[2]:
+                self.effect_events.append((e, peek(v)))
                 self._call("effect", e, lambda x: None, (v,))
         return v
 
@@ -539,6 +547,8 @@ class Ref:
         o1 = overlay(D, o) if D else o
         o2 = overlay(o1, P) if P else o1
 
+        self.body_events.append((name, self._projection(t, o2)))
+
         def body():
             args = [self.ev(x, o2) for x in p["params"]]
             return self._call("body", name, tag_fn(name), tuple(args))
@@ -557,8 +567,34 @@ class Ref:
             v = cb(v)
         if not self._effects_disabled(o2):
             for e in p["effects"]:
+                self.effect_events.append((e, peek(v)))
                 self._call("effect", e, lambda x: None, (v,))
         return v
+
+    def _mentioned(self, t):
+        from .terms import mentioned_keys
+
+        k = repr(t)
+        if k not in self._mention_cache:
+            keys = set(mentioned_keys(t))
+            # sections: a mentioned key also covers its sub-keys and parents in the alphabet
+            changed = True
+            while changed:
+                changed = False
+                for a in list(keys):
+                    for b in self.value_refs.get(a, ()):
+                        if b not in keys:
+                            keys.add(b)
+                            changed = True
+            self._mention_cache[k] = keys
+        return self._mention_cache[k]
+
+    def _projection(self, t, o):
+        """The effective options a dataset saw, restricted to the keys its sub-graph mentions
+        (a static over-approximation of 'the options it depends on')."""
+        from .optspace import restrict
+
+        return repr(freeze(restrict(o, self._mentioned(t))))
 
     def _switch_ds(self, p, body, o):
         d = p["dispatch"]
